@@ -1,0 +1,60 @@
+//! Verification hooks (only compiled with `--cfg fuellabs_sway_verif`).
+//!
+//! A process-global, replaceable callback that instrumented code calls at named points.
+//! With no callback installed every call is a no-op. The callback may block (schedule
+//! control), sleep (delay injection), record (event logs) or ask the caller to fail.
+
+use std::sync::{Arc, RwLock};
+
+#[derive(Debug, Clone, Copy, PartialEq, Eq)]
+pub enum Action {
+    Continue,
+    /// The instrumented operation should behave as if it failed with an I/O error.
+    Fail,
+}
+
+#[derive(Debug, Clone, Copy, PartialEq, Eq)]
+pub enum Kind {
+    /// An ordinary point between two operations.
+    Point,
+    /// The calling thread/task is about to block on something another actor must provide.
+    AboutToBlock,
+    /// The calling thread/task resumed after a blocking operation.
+    Resumed,
+}
+
+pub type Callback = dyn Fn(Kind, &'static str, &str) -> Action + Send + Sync;
+
+static CALLBACK: RwLock<Option<Arc<Callback>>> = RwLock::new(None);
+
+pub fn install(cb: Option<Arc<Callback>>) {
+    *CALLBACK.write().unwrap() = cb;
+}
+
+fn call(kind: Kind, name: &'static str, detail: &dyn Fn() -> String) -> Action {
+    let cb = CALLBACK.read().unwrap().clone();
+    match cb {
+        Some(cb) => cb(kind, name, &detail()),
+        None => Action::Continue,
+    }
+}
+
+pub fn point(name: &'static str, detail: &dyn Fn() -> String) -> Action {
+    call(Kind::Point, name, detail)
+}
+
+pub fn about_to_block(name: &'static str, detail: &dyn Fn() -> String) {
+    call(Kind::AboutToBlock, name, detail);
+}
+
+pub fn resumed(name: &'static str, detail: &dyn Fn() -> String) {
+    call(Kind::Resumed, name, detail);
+}
+
+/// Convenience for points in functions returning `std::io::Result`.
+pub fn io_point(name: &'static str, detail: &dyn Fn() -> String) -> std::io::Result<()> {
+    match point(name, detail) {
+        Action::Continue => Ok(()),
+        Action::Fail => Err(std::io::Error::other(format!("injected failure at {name}"))),
+    }
+}
